@@ -441,10 +441,12 @@ example : renderInt { sharp := true, width := some 8, verb := 79 } (-8) = [32, 3
 example : renderInt { prec := some 0, width := some 3, verb := 100 } 0 = [32, 32, 32] := by
   simp [renderInt]
 
-/-- **`M = G` (partial).** Proved: the integer verbs `b d o O x X`, `%c`, `%s` (strings and bytes),
-`%t`, for all flags/width/precision and all values. Missing: the parser link (directive text ↦
-`flOf d`, `*`, `[n]`, error renderings), `%q %U`, hex of strings/bytes, the float verbs; `%v`/`%T`
-are excluded (known findings O22/O23). -/
+/-- **`M = G` (partial), verb level.** Proved: the integer verbs `b d o O x X`, `%c`, `%s` (strings and
+bytes), `%t`, for all flags/width/precision and all values; `format_eq_G_single` below lifts this to whole
+format strings consisting of one canonical directive (through `parser_recovers_directive`). Missing:
+format strings with several directives or literal text around them, non-canonical flag order, `*`, `[n]`
+and the error renderings; `G` and the equality for `%q %U`, hex of strings/bytes, the float verbs;
+`%v`/`%T` are excluded (known findings O22/O23). -/
 theorem M_eq_G_partial (O : Oracle) (L : Nat) (d : GDir) (buf : Bytes) (h : buf.length ≤ L) :
     (∀ v : BitVec 64, (d.verb = 100 ∨ d.verb = 98 ∨ d.verb = 111 ∨ d.verb = 79 ∨ d.verb = 120 ∨ d.verb = 88) →
       printArg O L (flOf d) buf (.int v) d.verb = write L buf (renderInt d v.toInt)) ∧
